@@ -27,7 +27,8 @@
    and, outside receive_datagram, [on_handshake_sent]: a client discards the Initial epoch when it has sent a Handshake packet.
 
    Not modelled: migration / network paths (bytes_received, validation, promotion), the server's `_close_at` / `_initialize`
-   on its very first datagram (both before authentication, see docs/C02.md "False alarms"), _loss.discard_space, qlog.
+   on its very first datagram (both before authentication, see docs/C02.md "False alarms"), the congestion / loss side of
+   _loss.discard_space, qlog.
    Tie: exec_packetrecv below is run against real connections on every check (harness/props/c02_recv.py).
    No proofs in this file. *)
 From AQ Require Import lib.Base lib.Tok model.KeyPhase model.PacketNumber model.RangeSet gen.C02Recv.
@@ -115,11 +116,12 @@ Definition set_spin (c : conn) (b : bool) (pn : Z) : conn :=
     (c_pair c) (c_sp_initial c) (c_sp_handshake c) (c_sp_onertt c) (c_crypto_retransmitted c) (c_rescheduled c) (c_connected c)
     (c_close c) (c_close_at c) (c_delivered c) (c_peer_latched c) (c_peer_cid c) (c_remote_iscid c) b pn.
 
+(* _loss.discard_space(space): `space.ack_at = None` (sent packets, loss timer: not modelled); then space.discarded = True *)
 Definition sp_set_discarded (s : space) : space :=
-  mkSp (sp_expected s) (sp_largest s) (sp_largest_time s) (sp_ackq s) (sp_ack_at s) true.
+  mkSp (sp_expected s) (sp_largest s) (sp_largest_time s) (sp_ackq s) None true.
 
 (* _discard_epoch: `if not self._spaces[epoch].discarded:` teardown of the epoch's pair (for INITIAL: every Initial pair),
-   _loss.discard_space (not modelled), discarded = True.  Only called for INITIAL and HANDSHAKE while the connection lives. *)
+   _loss.discard_space (its `space.ack_at = None`: DISCARD_SPACE_CLEARS_ACK_AT), discarded = True.  Only called for INITIAL and HANDSHAKE while the connection lives. *)
 Definition discard_epoch (c : conn) (e : epoch) : conn :=
   if sp_discarded (space_of c e) then c
   else set_space (set_keys c e false) e (sp_set_discarded (space_of c e)).
